@@ -127,6 +127,32 @@ def run(ctx):
         ctx.guard('C15.r4', R, lambda k, t: t is ge[0][1], 'true', [(subs[0][0], subs[0][1].span, 'return boundary - 1')], gname='sample >= difficulty_boundary')
     # reviewed reference of the checker functions' decision structure (engine/census.py)
     from rules import census_fns
+    # r5 (F71-F73): the sampling itself
+    GX = ctx.body('FlyClientPDF::gen_x')
+    rng = [st for blk in GX.blocks.values() if not blk.cleanup for st in blk.stmts if st.kind == 'assign' and re.search(r'Range::<f64>\s*\{', st.rhs or '')]
+    unit = any(re.search(r'start: const 0f64, end: const 1f64', st.rhs) for st in rng)
+    ctx.ob('C15.r5', GX.name, 'the variable of the inverse CDF is uniform on [0, 1) (the samples cover the whole sampled region)', bool(rng) and unit,
+           ranges=[st.rhs for st in rng],
+           failing_history=None if (rng and unit) else 'delta = 1/2: u drawn from [0, 1/2) gives x < 1 - 2^(-1/2) = 0.29: the slice [0.29, 0.5) of the chain below the boundary is neither '
+           'sampled nor in the last-N blocks')
+    SM = ctx.body('FlyClientPDF::sampling')
+    cmp_len = [c for c in ctx.cmp_stmts(SM) if c[2] in ('Lt', 'Ge', 'Gt', 'Le', 'Eq', 'Ne')]
+    sdu5 = DefUse(SM)
+    loops = False
+    for c in cmp_len:
+        oo = [{x[1] for x in sdu5.origins(a, stop_at_calls=False) if x[0] == 'call'} for a in (c[3], c[4])]
+        prm = [any(x[0] == 'param' for x in sdu5.origins(a, stop_at_calls=False)) for a in (c[3], c[4])]
+        if (any(k.endswith('HashSet::len') for k in oo[0]) and prm[1]) or (any(k.endswith('HashSet::len') for k in oo[1]) and prm[0]):
+            cfg5 = P.cfg(SM)
+            ins = [b for b, k, t in P.call_keys(SM) if k.endswith('HashSet::insert')]
+            loops = any(c[0] in cfg5.reachable_from(cfg5.succ[b]) for b in ins)
+    ctx.ob('C15.r5', SM.name, 'sampling continues until the required number of DISTINCT difficulties is collected (bounded retries)', loops,
+           failing_history=None if loops else '10000 missing blocks of difficulty 2: 113 samples required, collisions in the set leave 111')
+    SB = ctx.body('sample_blocks')
+    keys5 = [k for _, k, _ in P.call_keys(SB)]
+    clamp = any(k.endswith('Ord>::max') or k.endswith('::max') for k in keys5) and any(k.endswith('Ord>::min') or k.endswith('::min') for k in keys5)
+    ctx.ob('C15.r5', SB.name, 'with samples the boundary offset is clamped into [2, last - start]: (start, boundary) is not empty and the boundary is not after the last total difficulty', clamp,
+           failing_history=None if clamp else 'difficulty 2 per block, last-N + 1 missing blocks: boundary = start + 1, the single sample is the start total difficulty itself')
     census_fns.run(ctx, 'C15')
 
 
